@@ -71,6 +71,14 @@ func runOnce(prop, tier string, seed int64, repo, out string, findings []report.
 		}
 		rep.Count("module_packages", p.NModule)
 		rep.Count("all_packages", p.NAll)
+		if i == 0 {
+			rep.Count("helper_calls_expanded_in_place", len(p.Inlined))
+			for k, il := range p.Inlined {
+				if k < 12 {
+					rep.Note("expanded in place (function not on the reference tree): %s <- %s at %s", il.Caller, il.Callee, il.Pos)
+				}
+			}
+		}
 		ctx := rules.NewCtx(p, rep, tier)
 		if i > 0 {
 			ctx.Variant = "tests"
